@@ -451,6 +451,16 @@ func B64(b []byte) string { return base64.StdEncoding.EncodeToString(b) }
 // DeflateB64 is the HTTP-Redirect message encoding.
 func DeflateB64(xml string) string { return B64(Deflate([]byte(xml))) }
 
+// DeflateUnfinished compresses data into a DEFLATE stream that was flushed but never finished: a reader gets all of
+// the data and then an unexpected end of the stream (a message cut off in transit, or built by a broken client).
+func DeflateUnfinished(data []byte) []byte {
+	var b bytes.Buffer
+	w, _ := flate.NewWriter(&b, flate.DefaultCompression)
+	_, _ = w.Write(data)
+	_ = w.Flush()
+	return b.Bytes()
+}
+
 // Percent-encoding styles a conformant SP may use.
 const (
 	PctGo    = "go"    // upper-case hex, space as '+'
